@@ -189,6 +189,49 @@ def make_case(ctx, g):
                             fails.append(Failure("oracle", None, "re-adding the same value for %s is not a no-op (err=%r)" % (a, err),
                                                  {"ops": list(w.ops)}))
         w.obs_rec(h)
+    # one constructing call that states a formal attribute twice — as the positional argument and among the other attributes —
+    # with different values: refused, and no record arrives (stated twice with the same value: accepted, one value)
+    if g.chance(0.3) and scopes:
+        from ..docgen import KIND_TO_FACTORY, NO_ID_KINDS
+        c = g.choice(scopes)
+        kind = g.choice([k for k in FORMALS if FORMALS[k] and k != "Membership"])
+        b.o["malformed"], keep_mal = 0.0, b.o["malformed"]
+        args = b.formal_args(c, kind, mask_p=0.9)
+        b.o["malformed"] = keep_mal
+        idx = [i for i, a_ in enumerate(args) if a_ is not None]
+        if idx:
+            i = g.choice(idx)
+            l = FORMALS[kind][i]
+            same = g.chance(0.3)
+            if same:
+                v2 = args[i]
+            elif l in TIME_ATTRS:
+                v2 = datetime.datetime(1851, g.rng.randint(1, 12), g.rng.randint(1, 28), g.rng.randint(0, 23), 30, 15)
+            else:
+                v2 = QualifiedName(Namespace("cf", "http://conflict.example/ns#"), "other%d" % g.rng.randint(0, 9))
+            other = b.other_attrs(c, g.rng.randint(0, 1)) + [(PROV[l] if g.chance(0.6) else "prov:" + l, v2)]
+            ident = b.ident(c) if (kind in ELEMENT_KINDS or g.chance(0.5)) else None
+            n_before = len(w.conts[c].records)
+            if g.chance(0.6) and kind in KIND_TO_FACTORY and kind not in NO_ID_KINDS:    # (those factories take no attributes)
+                h2, err = w.factory(c, g.choice(KIND_TO_FACTORY[kind]), ident, args, other)
+                how = "factory"
+            else:
+                attrs = [(PROV[l_], a_) for l_, a_ in zip(FORMALS[kind], args)] + other
+                h2, err = w.new_record(c, kind, ident, attrs)
+                how = "new_record"
+            flags.add("stated-twice-in-one-call:" + ("same" if same else "different"))
+            n_after = len(w.conts[c].records)
+            if not same:
+                if err is None:      # (another pair of the call may be refused first, for a reason of its own)
+                    fails.append(Failure("oracle", None, "%s(%s): prov:%s given as argument and, with another value, among the other "
+                                         "attributes of the same call was accepted" % (how, kind, l), {"ops": list(w.ops)}))
+                elif n_after != n_before:
+                    fails.append(Failure("oracle", None, "%s(%s): the refused call left a record behind" % (how, kind), {"ops": list(w.ops)}))
+            elif err is None and h2 is not None:
+                vals = w.recs[h2].get_attribute(PROV[l])
+                if len(vals) != 1:
+                    fails.append(Failure("oracle", None, "%s(%s): prov:%s stated twice with one value holds %d values" % (how, kind, l, len(vals)),
+                                         {"ops": list(w.ops)}))
     # entry-path independence: typed literal vs direct value
     if g.chance(0.5) and scopes:
         c = g.choice(scopes)
